@@ -4,8 +4,10 @@ import (
 	"context"
 	"encoding/json"
 	"fmt"
+	"runtime"
 	"strings"
 	"sync"
+	"sync/atomic"
 	"time"
 
 	"github.com/hprose/hprose-golang/v3/rpc/core"
@@ -458,13 +460,26 @@ func c15Run(t *tr.Writer, id int, c c15Case) {
 		case "race":
 			// Use(op.Hs) and Unuse(op.Un) at the same time on the same managers; the handlers are disjoint, so
 			// the two operations commute and are logged one after the other
-			var wg sync.WaitGroup
-			gatec := make(chan struct{})
-			wg.Add(2)
-			go func() { defer wg.Done(); <-gatec; side.use(op.Hs) }()
-			go func() { defer wg.Done(); <-gatec; side.unuse(op.Un) }()
-			close(gatec)
-			wg.Wait()
+			// (both goroutines are running and spin on a flag, so that the two operations really start
+			// together: a goroutine woken through a channel starts microseconds after the other)
+			var ready, goFlag, finished int32
+			for _, f := range []func(){func() { side.use(op.Hs) }, func() { side.unuse(op.Un) }} {
+				f := f
+				go func() {
+					atomic.AddInt32(&ready, 1)
+					for atomic.LoadInt32(&goFlag) == 0 {
+					}
+					f()
+					atomic.AddInt32(&finished, 1)
+				}()
+			}
+			for atomic.LoadInt32(&ready) < 2 {
+				runtime.Gosched()
+			}
+			atomic.StoreInt32(&goFlag, 1)
+			for atomic.LoadInt32(&finished) < 2 {
+				runtime.Gosched()
+			}
 			inv, io := c15Split(op.Un)
 			t.Emit(tr.Rec{"ev": "opB", "kind": "unuse", "invoke": inv, "io": io})
 			t.Emit(tr.Rec{"ev": "opE"})
